@@ -795,6 +795,8 @@ fn spell_char(ch: char, rng: &mut Rng) -> String {
 
 const HOSTILE: &[char] = &[
     'a', 'Z', '0', ' ', '"', '\\', '\n', '\t', '\r', '\u{8}', '\u{c}', '/', '\'', '%', '{', '}', '$', '`', 'é', 'ß', '中', '\u{1F600}', '\u{10000}', '\u{103FF}', '\u{10400}', '\u{1F3FF}', '\u{10FFFF}', '\u{10FC00}', '\u{FFFF}', '\u{D7FF}', '\u{E000}', '\u{7f}', '\u{1}', '\u{1f}', '\u{a0}', '\u{2028}', 'n', 'u', 'x', '#',
+    // C1 controls and other characters a Go printer may want to escape (a one-byte `\x85` is not U+0085)
+    '\u{80}', '\u{85}', '\u{9f}', '\u{ad}', '\u{feff}', '\u{200b}', '\u{2029}', '\u{e}', '\u{fffd}',
 ];
 
 fn go_println_bytes(s: &str) -> String {
@@ -1002,7 +1004,7 @@ fn run(ctx: &mut Ctx) {
         }
     }
     // random larger trees
-    let nrand = tier.pick(4_000u64, 120_000u64) / ctx.nshards as u64 + 1;
+    let nrand = tier.pickn(4_000u64, 120_000u64) / ctx.nshards as u64 + 1;
     let mut j = 0u64;
     while j < nrand {
         let mut trees = Vec::new();
@@ -1024,7 +1026,7 @@ fn run(ctx: &mut Ctx) {
         j += 100;
     }
     // A2. type expressions (arrow associativity, nesting of tuples / arrays / applications / function types)
-    let nty = tier.pick(40u64, 1_200u64) / ctx.nshards as u64 + 1;
+    let nty = tier.pickn(40u64, 1_200u64) / ctx.nshards as u64 + 1;
     for j in 0..nty {
         let mut rng = Rng::keyed(seed, "c11-ty", ctx.shard as u64, j);
         let mut types: Vec<Ty> = (0..40).map(|_| random_ty(&mut rng, 3)).collect();
@@ -1043,7 +1045,7 @@ fn run(ctx: &mut Ctx) {
         });
     }
     // B. whole programs: min parens / max parens / trivia
-    let nprog = tier.pick(160u64, 3_200u64) / ctx.nshards as u64 + 1;
+    let nprog = tier.pickn(160u64, 3_200u64) / ctx.nshards as u64 + 1;
     for j in 0..nprog {
         let mut rng = Rng::keyed(seed, "c11-prog", ctx.shard as u64, j);
         let mut f = Features::base();
